@@ -80,6 +80,7 @@ func runChild(cfg hx.Config) error {
 	}
 	r.Rule = "one scenario = an index report (packages, environments, distributions, repositories), a stub store table, 0..64 scripted matchers (plain / version-filter / authoritative / remote; filter sets, query constraints, acceptance hash, scripted failures in Get / Vulnerable / remote call, context cancellation from inside Get) and 0..34 scripted enrichers, run through EnrichedMatch, Libvuln.Scan or Match on the real code under two or more GOMAXPROCS values with seeded yields/spins/sleeps inside every scripted call; the canonical outcome (sorted report | err) is one protocol line answered by the Lean model; a scenario is non-trivial by its distinct scan line (the scenario text is part of the evidence key)"
 	rnd := hx.NewRand(cfg.Seed)
+	registerScripted()
 	startGoroutines := runtime.NumGoroutine()
 	if f, err := os.Create(filepath.Join(cfg.OutDir, inflightName)); err == nil {
 		inflightFile = f
